@@ -15,7 +15,16 @@ sys.path.insert(0, os.path.dirname(os.path.abspath(__file__)))
 import lib  # noqa: E402
 from replicat.repository import Repository  # noqa: E402
 from replicat.backends.local import Local  # noqa: E402
-from replicat.utils import SnapshotListColumn as SC, FileListColumn as FC, bytes_to_human  # noqa: E402
+from replicat.utils import SnapshotListColumn as SC, FileListColumn as FC  # noqa: E402
+
+
+def bytes_to_human(n):
+    """the documented humanised size, written independently of replicat: decimal units, two decimals, no trailing zeros"""
+    unit, div = 'B', 1
+    for u, d in (('K', 1000), ('M', 1000 ** 2), ('G', 1000 ** 3)):
+        if n >= d:
+            unit, div = u, d
+    return ('%g' % round(n / div, 2)) + unit
 
 
 async def run_history(root, rnd, scripted=False):
